@@ -87,6 +87,12 @@ World gen_world(Rng &r) {
                 std::string hier = r.chance(5, 6) ? "1" : std::to_string(r.range(2, 13));
                 p.cgroup = {"11:memory:/x", hier + ":name=systemd:/" + path, "0::/" + path};
                 if (r.chance(1, 2)) std::swap(p.cgroup[0], p.cgroup[1]);
+                if (r.chance(1, 5)) {   // a container host: many hierarchies with long paths in front - the file is 1.5 to 12 KiB, more than one read
+                    int k = (int)r.range(12, 100); std::vector<std::string> pre;
+                    for (int q = 0; q < k; q++) pre.push_back(std::to_string(20 + q) + ":ctl" + std::to_string(q) + ":/kubepods/burstable/pod0a1b2c3d-4e5f-6789-abcd-ef0123456789/" + std::string(40, (char)('a' + q % 26)));
+                    p.cgroup.insert(p.cgroup.begin(), pre.begin(), pre.end());
+                }
+                if (r.chance(1, 12)) p.cgroup.clear();   // an empty cgroup file
             }
             }
         }
